@@ -244,7 +244,8 @@ fn emit_sort(sink: &mut Sink, a: &Value, tag: &str) {
 }
 
 pub fn replay(sink: &mut Sink, toks: &[&str]) {
-    // the configuration token of a recorded case is replaced by the configuration of this binary
+    // a recorded case is meaningful only in the configuration it was recorded in
+    if toks.len() < 2 || toks[1] != cfg_tag() { return; }
     match (toks[0], toks.len()) {
         ("maphist", 3) => emit_hist(sink, toks[2], "replay"),
         ("mapeqh", 4) => emit_eqh(sink, toks[2], toks[3], "replay"),
